@@ -462,6 +462,13 @@ def run(rep: vk.Report):
                     seqs.append(setup + (sa, ed, sb))
             else:
                 seqs.append(setup + (sa, ed, sb))
+    # an objective edit between two LP-capable solves, in the world where every LP over the candidate objectives is BOUNDED in both
+    # orientations (in the others the re-solve is unbounded and reports no objective value to compare)
+    lp_solves = ["s:auto", "s:linprog", "s:highs-ds"]
+    for setup in (("min0",), ("max1",), ("min4",), ("max6",), ("min0", "subjL")):
+        for sa, ed, sb in itertools.product(lp_solves, [L for L in edits if L[:3] in ("min", "max")], lp_solves):
+            forced_world[len(seqs)] = 1
+            seqs.append(setup + (sa, ed, sb))
     # state, SOLVE, edit, EDIT, SOLVE: two consecutive structural edits with nothing read in between (what the second edit may
     # rely on - the variable list, a cache - was already dropped by the first), for every pair of objective / constraint edits
     structural = [L for L in edits if L[:3] in ("min", "max", "sub") or L in ("read", "listAppend")]
@@ -502,12 +509,15 @@ def run(rep: vk.Report):
         two = [i for i in rest if sum(1 for L in cases.meta[i]["sequence"] if L.startswith("s:")) >= 2]
         step_ = max(1, len(two) // 1500)
         by_len = by_len[:300] + two[::step_][:1500] + rest[:200]
+    # replay order: histories in which a solve FOLLOWS another solve come first (staleness needs solve ... edit ... solve), shortest first
+    nsolves = lambda i: sum(1 for L in cases.meta[i]["sequence"] if L.startswith("s:"))
+    by_len = sorted(dict.fromkeys(by_len), key=lambda i: (0 if nsolves(i) >= 2 else 1, len(cases.meta[i]["sequence"])))
     for i in by_len[:2000]:
         if found >= 12:
             break
         seq, variant = cases.meta[i]["sequence"], cases.meta[i]["world"]
         tried_w += 1
-        wit = seam_vs_fresh(seq, variant) or (real_vs_fresh(seq, variant) if tried_w <= 150 else None)
+        wit = seam_vs_fresh(seq, variant) or (real_vs_fresh(seq, variant) if tried_w <= 600 else None)
         if wit is None:
             continue
         kind_key = (wit.get("at"), tuple(sorted((wit.get("handed_to_scipy_live_vs_fresh") or {"values": 0}).keys())), tuple(wit["sequence"][-3:]))
